@@ -58,6 +58,17 @@ mutual
     | t :: r => by rw [pastesOf.pastesOfList, pastes.pastesL, pastesOf_eq t, pastesOfList_eq r]
 end
 
+theorem reach_iff {ms : Macros} {a b : Nat} : PasteReach ms a b ↔ Reach ms a b := by
+  constructor
+  · intro h
+    induction h with
+    | single e => rcases e with ⟨m, hm, hb⟩; exact .single ⟨m, hm, pastesOf_eq m ▸ hb⟩
+    | tail _ e ih => rcases e with ⟨m, hm, hb⟩; exact .tail ih ⟨m, hm, pastesOf_eq m ▸ hb⟩
+  · intro h
+    induction h with
+    | single e => rcases e with ⟨m, hm, hb⟩; exact .single ⟨m, hm, (pastesOf_eq m).symm ▸ hb⟩
+    | tail _ e ih => rcases e with ⟨m, hm, hb⟩; exact .tail ih ⟨m, hm, (pastesOf_eq m).symm ▸ hb⟩
+
 /-! ## (1) pasting = writing the body in place -/
 
 /-- the expansion of a tree / a list of trees is a `Step` of the scan-time resolution over the inlined
@@ -191,27 +202,7 @@ theorem cycle_rejected (ms : Macros) (a : Nat) (h : PasteReach ms a a) :
     ∃ e, checkRecursion ms = .error e := by
   cases hc : checkRecursion ms with
   | error e => exact ⟨e, rfl⟩
-  | ok u =>
-    exfalso
-    have hdef : ∀ x y, PasteReach ms x y → ∃ m, ms.get? x = some m := by
-      intro x y hxy
-      induction hxy with
-      | single e => rcases e with ⟨m, hm, _⟩; exact ⟨m, hm⟩
-      | tail _ _ ih => exact ih
-    rcases hdef a a h with ⟨m, hm⟩
-    rcases check_closed hc hm with ⟨S, hSa, hS⟩
-    have key : ∀ x y, PasteReach ms x y → S x → S y ∧ y ≠ a := by
-      intro x y hxy
-      induction hxy with
-      | single e =>
-        intro hx
-        rcases e with ⟨mx, hmx, hy⟩
-        exact hS _ hx mx hmx _ (pastesOf_eq mx ▸ hy)
-      | tail _ e ih =>
-        intro hx
-        rcases e with ⟨mb, hmb, hy⟩
-        exact hS _ (ih hx).1 mb hmb _ (pastesOf_eq mb ▸ hy)
-    exact (key a a h hSa).2 rfl
+  | ok u => exact absurd (reach_iff.mp h) (check_acyclic hc a)
 
 /-- (3) a macro that pastes itself, directly, is rejected (no side condition on the name is needed) -/
 theorem self_cycle_rejected (ms : Macros) (a : Nat) (h : PasteEdge ms a a) :
@@ -224,5 +215,62 @@ theorem expand_cycle_rejected (roots : List Tree) (ms : Macros) (rest : List Tre
     ∃ e, expand roots = .error e := by
   rcases cycle_rejected ms a h with ⟨e, he⟩
   exact ⟨e, by unfold expand; simp only [hc, he]⟩
+
+/-! ## (5) bounded time -/
+
+/-- (5) the expansion never runs out of fuel: the fuel `expand` computes from the sizes is always enough,
+    so `expand` is a total function whose running time is bounded by that fuel -/
+theorem expand_no_fuel (roots : List Tree) : expand roots ≠ .error .fuel := by
+  cases hc : collectMacro roots [] [] with
+  | error e =>
+    unfold expand
+    simp only [hc]
+    intro h
+    cases h
+    exact collect_no_fuel _ _ _ hc
+  | ok p =>
+    rcases p with ⟨ms, rest⟩
+    cases hr : checkRecursion ms with
+    | error e =>
+      unfold expand
+      simp only [hc, hr]
+      intro h
+      cases h
+      exact checkRecursion_no_fuel _ hr
+    | ok u =>
+      rw [expand_of_parts hc hr]
+      have h1 := expandList_no_fuel (collect_kinds hc) hr rest {}
+      split
+      · rename_i e he
+        intro h
+        cases h
+        exact h1 he
+      · simp
+
+/-! ## (6) unused macros -/
+
+/-- (6) a macro that is never pasted — neither by the directives nor by another macro — contributes
+    nothing: deleting its definition leaves the result unchanged -/
+theorem unused_macro_inert (roots f : List Tree) (m : Tree) (pre post : List Tree)
+    (hr : roots = pre ++ m :: post) (hm : m.dir.kind = Gen.Kind.Macro)
+    (hunused : ∀ t ∈ pre ++ post, m.dir.name ∉ pastesOf t) (h : expand roots = .ok f) :
+    expand (pre ++ post) = .ok f := by
+  subst hr
+  rcases expand_ok h with ⟨ms, rest, st, hc, hrec, hl, rfl⟩
+  rcases collect_remove hm hc with ⟨A, C, rfl, hc'⟩
+  have hun : ∀ t ∈ pre ++ post, m.dir.name ∉ pastes t := fun t ht => pastesOf_eq t ▸ hunused t ht
+  have hclean : ∀ p ∈ A ++ C, (m.dir.name, m).1 ∉ pastes p.2 := by
+    intro p hp
+    rcases collect_entries _ _ _ _ _ hc' p hp with h1 | ⟨h1, _, _⟩
+    · cases h1
+    · exact hun _ h1
+  have hrest : (m.dir.name, m).1 ∉ pastes.pastesL rest := by
+    apply not_mem_pastesL
+    intro t ht
+    rcases collect_rest _ _ _ _ _ hc' t ht with h1 | h1
+    · cases h1
+    · exact hun _ h1
+  rcases expandList_drop A (m.dir.name, m) C rest (collect_kinds hc) hclean hrest hrec st hl with ⟨hrec', hl'⟩
+  rw [expand_of_parts hc' hrec', hl']
 
 end JSight.C07
